@@ -39,10 +39,10 @@ Definition dsa2048 := {| ct_alg := 5; ct_bits := 2048; ct_curve := 0; ct_id := 7
 
 Definition client_of (st : Settings) (flavour : Z) (cert : option Cert) (alpn : option (list Z)) : Client :=
   {| cl_set := st; cl_flavour := flavour; cl_cert := cert; cl_alpn := alpn; cl_npn := None; cl_sni := Some 1;
-     cl_srp_user := 0; cl_fallback := false; cl_hello2_len := 0 |}.
+     cl_srp_user := 0; cl_fallback := false; cl_ticket := None; cl_hello2_len := 0 |}.
 Definition server_of (st : Settings) (cert : option Cert) (anon req : bool) (alpn : option (list Z)) : Server :=
   {| sv_set := st; sv_cert := cert; sv_srp := None; sv_anon := anon; sv_req_cert := req; sv_alpn := alpn;
-     sv_npn := None |}.
+     sv_npn := None; sv_nst_len := 0; sv_ticket := None |}.
 
 
 (* the default pair completes in TLS 1.3 with TLS_AES_256_GCM_SHA384 on secp256r1 *)
@@ -225,4 +225,37 @@ Lemma default_settings_clipped_pf : versions_clipped D.
 Proof.
   split; [vm_compute; discriminate|].
   intros x Hx. vm_compute in Hx. repeat (destruct Hx as [<-|Hx]; [vm_compute; split; discriminate|]). destruct Hx.
+Qed.
+
+(* ---- resumed connections ---------------------------------------------------------------------- *)
+From TV Require Import Model.C03_Resume Proofs.C03_Resume.
+Definition D12 := with_versions D 1 3 [3; 2; 1] (st_macs D).
+(* first connection negotiates ALPN protocol 1; the resumed one offers no ALPN: the client still reports 1 *)
+Lemma witness_resumed_alpn :
+  exists o r, negotiate (client_of D12 0 None (Some [1])) (server_of D (Some rsa2048) false false (Some [1])) = Ok o /\
+              resume_legacy false (client_of D12 0 None None) (server_of D (Some rsa2048) false false (Some [1]))
+                            (oc_client o) (oc_server o) = Ok r /\
+              rs_resumed r = true /\ vw_alpn (rs_client r) <> vw_alpn (rs_server r).
+Proof.
+  eexists. eexists. split; [vm_compute; reflexivity|]. split; [vm_compute; reflexivity|].
+  split; [vm_compute; reflexivity|vm_compute; discriminate].
+Qed.
+
+Example resumed_with_limits :
+  match negotiate (client_of D12 0 None None) (server_of D (Some rsa2048) false false None) with
+  | Ok o => match resume_legacy true (client_of D12 0 None None) (server_of D (Some rsa2048) false false None)
+                                (oc_client o) (oc_server o) with
+            | Ok r => rs_resumed r = true /\ vw_send_limit (rs_client r) = 16384
+            | Err _ => False end
+  | Err _ => False end.
+Proof. vm_compute. split; reflexivity. Qed.
+
+Lemma resumed_views_agree_refuted_alpn_pf :
+  exists t c s o c2 s2 r, negotiate c s = Ok o /\ resume_legacy t c2 s2 (oc_client o) (oc_server o) = Ok r /\
+                          vw_alpn (rs_client r) <> vw_alpn (rs_server r).
+Proof.
+  destruct witness_resumed_alpn as [o [r [A [B [_ C]]]]].
+  exists false, (client_of D12 0 None (Some [1])), (server_of D (Some rsa2048) false false (Some [1])), o,
+         (client_of D12 0 None None), (server_of D (Some rsa2048) false false (Some [1])), r.
+  repeat split; assumption.
 Qed.
